@@ -348,6 +348,16 @@ def separate_files_and_dirs(path_objs: list[Path]) -> tuple[list[Path], list[Pat
     return files, dirs
 
 
+def _merge_targets(files: list[Path], dirs: list[Path], recursive: bool) -> list[Path]:
+    """All files named explicitly or found under the directory targets, each one once."""
+    from src.orchestrator.core import collect_files
+
+    merged: dict[Path, Path] = {}
+    for file_path in files + [f for d in dirs for f in collect_files(d, recursive)]:
+        merged.setdefault(file_path.resolve(), file_path)
+    return list(merged.values())
+
+
 def execute_linting_on_paths(
     orchestrator: "Orchestrator",
     path_objs: list[Path],
@@ -366,6 +376,12 @@ def execute_linting_on_paths(
         List of violations from all paths
     """
     files, dirs = separate_files_and_dirs(path_objs)
+
+    if dirs and (files or len(dirs) > 1):
+        # Several targets are one run: lint all of their files in a single pass, so that
+        # cross-file rules see every file and finalize exactly once
+        files = _merge_targets(files, dirs, recursive)
+        dirs = []
 
     violations = []
 
